@@ -23,4 +23,7 @@ ProgNestedQ == (p1 :> <<"pin", "defer", "flush", "unpin", "pin", "flush", "unpin
 TaskNestedQ == (1 :> <<"pin", "flush", "flush", "unpin">>) @@ (2 :> <<>>)
 ProgPinAdvQ == (p1 :> <<"pin", "defer", "unpin">>) @@ (p2 :> <<"pin", "advance", "flush", "unpin", "pin", "advance", "unpin">>) @@ (p3 :> <<"pin", "advance", "unpin">>)
 ProgExitQ == (p1 :> <<"pin", "defer", "defer", "unpin", "hdrop">>) @@ (p2 :> <<"pin", "flush", "unpin", "pin", "flush", "unpin", "pin", "flush", "unpin", "pin", "flush", "unpin", "pin", "flush", "unpin">>)
+\* liveness: the survivor repeats pin/flush/unpin for ever
+ProgExitLive == (p1 :> <<"pin", "defer", "defer", "unpin", "hdrop">>) @@ (p2 :> <<"pin", "flush", "unpin">>)
+ProgOutlivesLive == (p1 :> <<"pin", "defer", "hdrop", "flush", "unpin">>) @@ (p2 :> <<"pin", "flush", "unpin">>)
 =============================================================================
